@@ -8,7 +8,8 @@ import os
 import sys
 import traceback
 
-sys.path.insert(0, '/repo/src')
+REPO_SRC = os.environ.get('VERIF_REPO_SRC', '/repo/src')
+sys.path.insert(0, REPO_SRC)
 
 from vt import core  # noqa: E402
 
